@@ -54,11 +54,11 @@ def classify_hole(t):
             and t[2] == (A.const("$"), A.const("$$")):
         inner, _ = classify_hole(t[1][1])
         return inner, True
-    if "self.imports" in s and t[0] == "index":
+    if "self.imports" in s and t[0] in ("index", "elem"):
         return "pkg", False
-    if "items()" in s and t[0] == "index":
+    if "items()" in s and t[0] in ("index", "elem"):
         # element 0 of an item is the key; an element of element 1 a value
-        if t[2] == A.const(0):
+        if t[0] == "index" and t[2] == A.const(0):
             return "key", False
         return "value", False
     return None, False
@@ -156,10 +156,10 @@ def run(ctx):
     for p in paths:
         slash = None
         for a in p.order:
-            if a[0] == "truthy" and a[1][0] == "call" \
-                    and a[1][1][0] == "attr" and a[1][1][2] == "endswith" \
-                    and a[1][2] == (A.const("/"),):
-                slash = (a[1][1][1], p.valuation[a])
+            # `x.endswith('/')` and `x[-1:] == '/'` are the same observation
+            if a[0] == "eq" and a[2] == A.const("/") and a[1][0] == "slice" \
+                    and a[1][2] == A.const(-1) and a[1][3] is None:
+                slash = (a[1][1], p.valuation[a])
         for e in p.effects:
             if e[0] != "call":
                 continue
